@@ -1751,8 +1751,21 @@ impl Server {
         
         let results = self.pubsub.unsubscribe(conn_id, channels)?;
         
+        // UNSUBSCRIBE without arguments and without channel subscriptions: one acknowledgement
+        // with a nil channel name and the remaining (pattern) subscription count
+        let remaining = self.pubsub.get_subscription_info(conn_id)
+            .map(|info| info.channels.len() + info.patterns.len())
+            .unwrap_or(0);
+        
         // Send each unsubscription confirmation atomically
         self.connections.with_connection(conn_id, |conn| -> Result<()> {
+            if results.is_empty() {
+                conn.send_frame(&RespFrame::Array(Some(vec![
+                    RespFrame::from_string("unsubscribe"),
+                    RespFrame::null_bulk(),
+                    RespFrame::Integer(remaining as i64),
+                ])))?;
+            }
             for result in results {
                 match result.subscription {
                     crate::pubsub::Subscription::Channel(ch) => {
@@ -1821,8 +1834,21 @@ impl Server {
         
         let results = self.pubsub.punsubscribe(conn_id, patterns)?;
         
+        // PUNSUBSCRIBE without arguments and without pattern subscriptions: one acknowledgement
+        // with a nil pattern and the remaining (channel) subscription count
+        let remaining = self.pubsub.get_subscription_info(conn_id)
+            .map(|info| info.channels.len() + info.patterns.len())
+            .unwrap_or(0);
+        
         // Send each unsubscription confirmation atomically
         self.connections.with_connection(conn_id, |conn| -> Result<()> {
+            if results.is_empty() {
+                conn.send_frame(&RespFrame::Array(Some(vec![
+                    RespFrame::from_string("punsubscribe"),
+                    RespFrame::null_bulk(),
+                    RespFrame::Integer(remaining as i64),
+                ])))?;
+            }
             for result in results {
                 match result.subscription {
                     crate::pubsub::Subscription::Pattern(pat) => {
